@@ -3,6 +3,7 @@
 package bubble
 
 import (
+	"os"
 	"errors"
 	"io"
 	"net"
@@ -51,6 +52,8 @@ type fakeConn struct {
 	nClose   int
 	nWrAfter int // writes attempted after local Close
 	consumed int // bytes corebgp has read
+	stalled  bool      // the remote has stopped reading and the send buffer is full: Write blocks
+	wdl, rdl time.Time // deadlines (zero: none), with net.Conn semantics
 }
 
 func newFakeConn(name string, local, remote string, tr *tracer) *fakeConn {
@@ -106,6 +109,33 @@ func (c *fakeConn) remoteReset() {
 	c.signal()
 }
 
+// stall makes Write block (remote window closed, send buffer full) until
+// unstalled, closed locally, reset, or the write deadline passes.
+func (c *fakeConn) stall(on bool) {
+	c.mu.Lock()
+	defer c.mu.Unlock()
+	c.stalled = on
+	c.signal()
+}
+
+func (c *fakeConn) setDeadline(which *time.Time, t time.Time) {
+	c.mu.Lock()
+	*which = t
+	c.signal()
+	c.mu.Unlock()
+	if !t.IsZero() {
+		if d := time.Until(t); d > 0 {
+			time.AfterFunc(d, func() {
+				c.mu.Lock()
+				c.signal()
+				c.mu.Unlock()
+			})
+		}
+	}
+}
+
+func expired(dl time.Time) bool { return !dl.IsZero() && !time.Now().Before(dl) }
+
 func (c *fakeConn) pending() int {
 	c.mu.Lock()
 	defer c.mu.Unlock()
@@ -126,6 +156,9 @@ func (c *fakeConn) Read(p []byte) (int, error) {
 		case c.rreset:
 			c.mu.Unlock()
 			return 0, syscall.ECONNRESET
+		case expired(c.rdl):
+			c.mu.Unlock()
+			return 0, os.ErrDeadlineExceeded
 		case len(c.segs) > 0:
 			if len(p) == 0 {
 				c.mu.Unlock()
@@ -151,24 +184,33 @@ func (c *fakeConn) Read(p []byte) (int, error) {
 }
 
 func (c *fakeConn) Write(p []byte) (int, error) {
-	c.mu.Lock()
-	closed, reset := c.closed, c.rreset
-	if closed {
-		c.nWrAfter++
-	}
-	c.mu.Unlock()
 	b := make([]byte, len(p))
 	copy(b, p)
-	switch {
-	case closed:
-		c.tr.emit(event{E: "wfail", C: c.name, B: b})
-		return 0, net.ErrClosed
-	case reset:
-		c.tr.emit(event{E: "wfail", C: c.name, B: b})
-		return 0, syscall.EPIPE
+	for {
+		c.mu.Lock()
+		closed, reset, late, stalled := c.closed, c.rreset, expired(c.wdl), c.stalled
+		w := c.wake
+		if closed {
+			c.nWrAfter++
+		}
+		c.mu.Unlock()
+		switch {
+		case closed:
+			c.tr.emit(event{E: "wfail", C: c.name, B: b})
+			return 0, net.ErrClosed
+		case reset:
+			c.tr.emit(event{E: "wfail", C: c.name, B: b})
+			return 0, syscall.EPIPE
+		case late:
+			c.tr.emit(event{E: "wfail", C: c.name, B: b, R: "deadline"})
+			return 0, os.ErrDeadlineExceeded
+		case stalled:
+			<-w // durably blocking inside the bubble
+			continue
+		}
+		c.tr.emit(event{E: "w", C: c.name, B: b})
+		return len(p), nil
 	}
-	c.tr.emit(event{E: "w", C: c.name, B: b})
-	return len(p), nil
 }
 
 func (c *fakeConn) Close() error {
@@ -187,9 +229,13 @@ func (c *fakeConn) Close() error {
 
 func (c *fakeConn) LocalAddr() net.Addr                { return c.local }
 func (c *fakeConn) RemoteAddr() net.Addr               { return c.remote }
-func (c *fakeConn) SetDeadline(t time.Time) error      { return nil }
-func (c *fakeConn) SetReadDeadline(t time.Time) error  { return nil }
-func (c *fakeConn) SetWriteDeadline(t time.Time) error { return nil }
+func (c *fakeConn) SetDeadline(t time.Time) error {
+	c.setDeadline(&c.rdl, t)
+	c.setDeadline(&c.wdl, t)
+	return nil
+}
+func (c *fakeConn) SetReadDeadline(t time.Time) error  { c.setDeadline(&c.rdl, t); return nil }
+func (c *fakeConn) SetWriteDeadline(t time.Time) error { c.setDeadline(&c.wdl, t); return nil }
 
 // fakeListener hands scripted inbound connections to Server.Serve. Offered
 // connections queue up (like a kernel accept backlog), so the script never
